@@ -12,7 +12,9 @@ while args:
     elif a == "--only": only = set(args.pop(0).split(","))
     elif a == "--checks": checks = args.pop(0).split(",")
     elif a == "--repo": R = args.pop(0)          # a scratch worktree of /repo: checks then run with FLODYM_REPO=<that tree>
-ENV = dict(os.environ, FLODYM_REPO=R)
+OUT = os.environ.get("VERIF_OUT_DIR") or f"/tmp/verif_mutant_out_{os.getpid()}"
+os.makedirs(OUT, exist_ok=True)
+ENV = dict(os.environ, FLODYM_REPO=R, VERIF_OUT_DIR=OUT)
 def sh(cmd, **kw): return subprocess.run(cmd, shell=True, capture_output=True, text=True, env=ENV, **kw)
 assert sh(f"git -C {R} status --porcelain").stdout.strip() == "", "repo not clean"
 rows = []
